@@ -343,6 +343,22 @@ def _run_supercritical(case, ctx):
                     ctx.violation("Adsorbate.%s/supercritical-wrong-error" % m, "backend failure not reported as CalculationError", ads=case["ads"], T=T, exc=got)
                 else:
                     ctx.count("supercritical", "CalculationError")
+    # ... and requests the backend could not answer leave the adsorbate as it was: the next subcritical request is answered by
+    # the backend again, and the critical point is still the backend's
+    try:
+        Tm = fl.t_triple() + 0.6 * (fl.t_crit() - fl.t_triple())
+        exp_p = fl.p_sat(Tm)
+    except Exception:
+        return
+    st, got = _call(ads.saturation_pressure, Tm)
+    ctx.case(["after-supercritical", case["ads"]])
+    ctx.count("supercritical", "subcritical-request-afterwards")
+    if st != "ok" or not close(float(got), exp_p, 1e-9):
+        ctx.violation("Adsorbate.saturation_pressure/after-unanswerable-requests", "after requests above T_critical the adsorbate no longer answers a subcritical request with the backend value", ads=case["ads"], T=Tm,
+                      got=got, expected=exp_p)
+    st, got = _call(ads.t_critical)
+    if st != "ok" or not close(float(got), fl.t_crit(), 1e-12):
+        ctx.violation("Adsorbate.t_critical/after-unanswerable-requests", "after requests above T_critical the critical temperature is no longer the backend's", ads=case["ads"], got=got, expected=fl.t_crit())
 
 
 _PROPS = {
